@@ -91,6 +91,10 @@ const (
 	FSharedMethodNames = "method_names_shared_across_services"
 	FHeaderDeprecated = "header_marked_deprecated"
 	FSharedResp   = "response_message_shared_across_services"
+	FGoPkgTail    = "go_package_without_explicit_name"
+	FMapWKT       = "map_with_message_values_from_another_package"
+	FPathVarOrder = "path_variables_declared_in_another_order"
+	FMethHdrVariants = "same_method_header_name_with_different_declarations"
 	FInt64Number  = "ann_int64_number"
 	FEnumValue    = "ann_enum_value"
 	FEnumNumber   = "ann_enum_number"
@@ -121,7 +125,7 @@ var SafeFeatures = []string{FBasePath, FPathVars, FQuery, FQueryOnBody, FHeaders
 	FEnum, FMap, FOneof, FOptional, FRepeated, FTimestamp, FBytes, FRules, FCustomError, FAllKinds, FMultiService, FNameShapes, FSharedPath, FSharedReq}
 
 // LateFeatures are drawn from the side stream.
-var LateFeatures = []string{FQueryCard, FPartialConfig, FSharedMethodNames, FHeaderDeprecated, FSharedResp}
+var LateFeatures = []string{FQueryCard, FPartialConfig, FSharedMethodNames, FHeaderDeprecated, FSharedResp, FGoPkgTail, FPathVarOrder, FMethHdrVariants, FMapWKT}
 
 var AnnotationFeatures = []string{FInt64Number, FEnumValue, FEnumNumber, FNullable, FEmptyBehav, FTsFormat, FBytesEnc, FFlatten, FOneofDisc, FUnwrap}
 
@@ -152,6 +156,7 @@ type g struct {
 	svcHdr   map[string]*spec.Header
 	lastMethHdr map[string]string
 	sharedReqDone map[string]bool
+	goPkg string // Go package name protogen derives for the file
 	sharedResp, sharedRespSvc string // FSharedResp: first response type and the service that declared it
 	prevPath    map[string]*sharedPath // per service: last explicit path and its variables
 }
@@ -249,6 +254,12 @@ func World(cfg Config) *spec.World {
 	x.pkg = name + ".v1"
 	x.w = &spec.World{Name: name, Mock: cfg.Mock}
 	x.f = &spec.File{Path: name + "/svc.proto", Package: x.pkg, GoPackage: "verifworld/" + name + "/pb;pb"}
+	x.goPkg = "pb"
+	if x.has(FGoPkgTail) {
+		// no explicit package name: protogen derives pb_api from the import path's last element
+		x.f.GoPackage = "verifworld/" + name + "/pb-api"
+		x.goPkg = "pb_api"
+	}
 	x.w.Files = []*spec.File{x.f}
 	var feats []string
 	for f := range x.on {
@@ -428,7 +439,7 @@ func (x *g) bodyField(m *spec.Message, taken map[string]bool, num int32) *spec.F
 	case x.has(FMap) && x.r.chance(1, 5):
 		f.Card = "map"
 		f.MapKey = pick(x.r, mapKeyKinds)
-		if f.Kind == "message" && f.TypeName == ".google.protobuf.Timestamp" {
+		if f.Kind == "message" && f.TypeName == ".google.protobuf.Timestamp" && !(x.has(FMapWKT) && x.r2.chance(1, 2)) {
 			f.TypeName = ""
 			f.Kind = "string"
 		}
@@ -601,7 +612,7 @@ func (x *g) method(s *spec.Service, name string, idx int, usedRoutes map[string]
 			if noCfg {
 				v = "POST"
 			}
-			def := "/pb/" + camelToSnake(name)
+			def := "/" + x.goPkg + "/" + camelToSnake(name)
 			if s.BasePath != nil && *s.BasePath != "" {
 				def = spec.JoinPath(*s.BasePath, camelToSnake(name))
 			}
@@ -664,6 +675,12 @@ func (x *g) method(s *spec.Service, name string, idx int, usedRoutes map[string]
 		req.Fields = append(req.Fields, &spec.Field{Name: fn, Number: num, Kind: k})
 		num++
 		vars = append(vars, fn)
+	}
+	if x.has(FPathVarOrder) && len(vars) > 1 && x.r2.chance(1, 2) {
+		// the path uses the variables in another order than the message declares them
+		for i, j := 0, len(vars)-1; i < j; i, j = i+1, j-1 {
+			vars[i], vars[j] = vars[j], vars[i]
+		}
 	}
 	// layouts: variable first / middle / last / adjacent
 	switch {
@@ -850,6 +867,16 @@ func (x *g) method(s *spec.Service, name string, idx int, usedRoutes map[string]
 		key := s.Name + "|" + strings.ToLower(hn)
 		if prev := x.svcHdr[key]; prev != nil {
 			cp := *prev
+			if x.has(FMethHdrVariants) {
+				// the same header name, declared differently by this method
+				switch x.r2.intn(3) {
+				case 0:
+					cp.Required = !cp.Required
+				case 1:
+					cp.Type, cp.Format = "string", ""
+					cp.Required = true
+				}
+			}
 			m.Headers = append(m.Headers, &cp)
 		} else if !x.usedHdrM[strings.ToLower(hn)] {
 			h := x.header(hn)
